@@ -21,6 +21,7 @@ from ..selftest import Twin
 from ._engine import CL, CL_REL, RUNNER, branch_for, command_constructions, param
 
 EXPLANATION = __doc__.split("\n\n", 1)[1]
+TECHNIQUE = 'static analysis: must-pass-through to the drain loop, volatile-work inventory (which runner containers hold step work vs what the idle path consults), FIFO discipline'
 TRUSTED = ["CPython ast", "heapq", "asyncio task scheduling"]
 
 
